@@ -239,7 +239,7 @@ Proof.
     rewrite Hc in H1. apply bind_ok in H1 as (b & Hb & H1). destruct b; [exact Hb|discriminate].
   - intros aud n Ha Hn Hlt. rewrite Ha in Haud. apply bind_ok in Haud as ([] & _ & H2).
     rewrite Hn in H2. cbn [bind] in H2.
-    assert (Nat.ltb 1 n = true) as -> in H2 by (apply Nat.ltb_lt; exact Hlt).
+    assert (Hlt' : Nat.ltb 1 n = true) by (apply Nat.ltb_lt; exact Hlt). rewrite Hlt' in H2.
     destruct (assoc (PS "azp") d) as [azp|]; try discriminate.
     apply bind_ok in H2 as (b & Hb & H2). destruct b; [|discriminate]. eauto.
   - intros azp c Ha Hc. rewrite Ha, Hc in Hazp.
@@ -305,7 +305,9 @@ Section Hash.
     apply bind_ok in H as ([] & Hc & H).
     apply bind_ok in H as ([] & Hh & H).
     apply bind_ok in H as ([] & _ & H).
-    inversion H; subst d'. exists signed. repeat split; auto; intros ->; auto.
+    inversion H; subst d'. exists signed.
+    split; [exact Hp|]. split; [intros ->; split; assumption|].
+    split; [exact Hf|]. split; [exact Hr|]. split; [exact Hc|exact Hh].
   Qed.
 End Hash.
 
@@ -358,3 +360,78 @@ Section Sound.
       exists k, e. repeat split; auto.
   Qed.
 End Sound.
+
+(* ---- the full message-level soundness statement ---- *)
+Section SoundFull.
+  Variable lhash : pystr -> pystr -> pystr.
+
+  Theorem verify_id_token_sound kw ch code atok t now d i c :
+    verify_id_token lhash kw ch code atok t now = Ok d ->
+    NoDup (List.map fst (t_claims t)) ->
+    kw_iss kw = Some i -> kw_client_id kw = Some c ->
+    (* 1 signature under a key registered for the issuer, permitted algorithm, none only if explicitly allowed *)
+    ((t_alg t = PS "none" /\ (kw_sigalg kw = Some (PS "none") \/ kw_allow_none kw = true))
+     \/ (t_alg t <> PS "none"
+         /\ (exists k e, alg2kty (t_alg t) = Some k /\ In e (kw_jar kw) /\ je_kty e = k /\
+                         t_signer t = Some (je_key e) /\ (je_owner e = i \/ (je_owner e = [] /\ k = KOct)))
+         /\ (forall a, kw_sigalg kw = Some a -> a <> [] -> t_alg t = a)
+         /\ (forall a, kw_allowed_sign_alg kw = Some a -> t_alg t = a))) /\
+    (* 2 what is returned as verified is the coerced payload of this very token *)
+    from_dict idtoken_params (t_claims t) [] = Ok d /\
+    (* 3 it names the issuer *)
+    assoc (PS "iss") d = Some (VStr i) /\
+    (* 4 it lists this client in aud; azp, when present or when there are several audiences, is this client *)
+    (exists aud, assoc (PS "aud") d = Some aud /\ py_in (VStr c) aud = Ok true /\
+                 (forall n, py_len aud = Ok n -> (1 < n)%nat -> assoc (PS "azp") d = Some (VStr c))) /\
+    (forall azp, assoc (PS "azp") d = Some azp -> azp = VStr c) /\
+    (* 5 unexpired and not issued in the future, within the skew; inside the storage window; exp >= iat *)
+    (exists exp iat, assoc (PS "exp") d = Some (VInt exp) /\ assoc (PS "iat") d = Some (VInt iat) /\
+                     (now - eff_skew kw <= exp)%Z /\ (iat <= now + eff_skew kw)%Z /\
+                     (now - eff_skew kw <= iat + eff_storage kw)%Z /\ (iat <= exp)%Z) /\
+    (* 6 a nonce claim, if any, equals the nonce argument (the service layer demands its presence) *)
+    (forall n v, kw_nonce kw = Some n -> assoc (PS "nonce") d = Some v -> v = VStr n) /\
+    (* 7 c_hash / at_hash of a signed token delivered by the authorization endpoint *)
+    (ch = true -> t_alg t <> PS "none" ->
+       (forall x, code = Some x -> assoc (PS "c_hash") d = Some (VStr (lhash (hash_bits (t_alg t)) x))) /\
+       (forall x, atok = Some x -> assoc (PS "at_hash") d = Some (VStr (lhash (hash_bits (t_alg t)) x)))).
+  Proof.
+    intros H Hnd Hi Hc.
+    pose proof (verify_id_token_stages lhash _ _ _ _ _ _ _ H) as (signed & Hp & Hsig & Hf & Hr & Hck & Hh).
+    pose proof (alg_policy_inv _ _ _ Hp) as [Hp0 Hp1].
+    pose proof (idtoken_checks_inv _ _ _ Hck) as (C1 & C2 & C3 & C4 & C5 & C6).
+    split; [|split; [exact Hf|split; [|split; [|split; [exact (fun azp Ha => C4 azp c Ha Hc)|split; [|split; [exact C6|]]]]]]].
+    - destruct signed.
+      + right. destruct (Hp1 eq_refl) as [Hne Hallowed]. split; [exact Hne|].
+        split; [eapply accepted_key_of_issuer; eauto|].
+        split; [|exact Hallowed].
+        destruct (Hsig eq_refl) as [_ Hs]. apply sig_accepted_inv in Hs as (? & ? & ? & _ & _ & _ & _ & Ha). exact Ha.
+      + left. apply Hp0. reflexivity.
+    - destruct (check_required_ok _ _ Hr _ idtoken_iss_required eq_refl) as (v & Hv & _). cbn [ps_name] in Hv.
+      rewrite Hv. f_equal. eapply C1; eauto.
+    - destruct (check_required_ok _ _ Hr _ idtoken_aud_required eq_refl) as (aud & Ha & _). cbn [ps_name] in Ha.
+      exists aud. split; [exact Ha|]. split; [eapply C2; eauto|].
+      intros n Hn Hlt. destruct (C3 aud n Ha Hn Hlt) as (azp & Hazp & _).
+      rewrite Hazp. f_equal. eapply C4; eauto.
+    - destruct C5 as (ex & ia & H1 & H2 & H3 & H4 & H5 & H6). exists ex, ia. repeat split; auto.
+    - intros -> Hne. destruct signed.
+      + apply hash_checks_inv in Hh. exact Hh.
+      + destruct (Hp0 eq_refl) as [E _]. contradiction.
+  Qed.
+
+  (* unforgeability: if no key in the jar is ever published, the signature of an accepted signed token is a
+     term the honest parties published (Lib/Crypto.v sig_genuine / mac_genuine) *)
+  Theorem accepted_token_genuine (K : term -> Prop) kw ch code atok t now d i :
+    (forall e, In e (kw_jar kw) -> forall x, K x -> ~ sub (Key (je_key e)) x) ->
+    verify_id_token lhash kw ch code atok t now = Ok d ->
+    NoDup (List.map fst (t_claims t)) -> kw_iss kw = Some i -> t_alg t <> PS "none" ->
+    exists k, t_signer t = Some k /\
+      forall m, (derivable K (Sig k m) -> exists t0, K t0 /\ sub (Sig k m) t0) /\
+                (derivable K (Mac k m) -> exists t0, K t0 /\ sub (Mac k m) t0).
+  Proof.
+    intros Hsecret H Hnd Hi Hne.
+    destruct (accepted_key_of_issuer lhash _ _ _ _ _ _ _ _ H Hnd Hne Hi) as (k & e & _ & Hin & _ & Hs & _).
+    exists (je_key e). split; [exact Hs|]. intro m. split; intro Hd.
+    - eapply sig_genuine; eauto.
+    - eapply mac_genuine; eauto.
+  Qed.
+End SoundFull.
